@@ -37,6 +37,9 @@ pub enum ErrHandler {
     /// `probe errs_b %traps; . ./errh.sh; probe errs_e`: a command fails inside a file the handler
     /// sources (the handler must not be entered again for it)
     SourcesFailing,
+    /// under `set -E`: `probe errs_b %traps; xh=$(simexit 3); probe errs_e` - a command fails
+    /// inside a command substitution of the handler, which inherits the ERR trap
+    SubstFailingE,
 }
 
 #[derive(Clone, Debug, Serialize, Deserialize, PartialEq)]
@@ -64,6 +67,9 @@ pub enum Cause {
     BangExit(u8),
     /// `exec xexit N`: the shell is replaced by a (simulated) program; no EXIT handler runs
     Exec(u8),
+    /// `trap "exit N" DEBUG` followed by a command: the handler's `exit` ends the shell before
+    /// that command runs
+    DebugExit(u8),
 }
 
 /// Other ways of producing a status than a plain `simexit S`.
@@ -220,6 +226,7 @@ impl Renderer {
                 ErrHandler::Clobbers => "trap \"probe err_h; true\" ERR".to_string(),
                 ErrHandler::Failing => "trap \"probe err_h; simexit 4\" ERR".to_string(),
                 ErrHandler::Exits(m) => format!("trap \"probe err_h; exit {m}\" ERR"),
+                ErrHandler::SubstFailingE => "set -E\ntrap \"probe errs_b %traps; xh=\\$(simexit 3); probe errs_e\" ERR".to_string(),
                 ErrHandler::SourcesFailing => {
                     if !self.files.iter().any(|(n, _)| n == "errh.sh") {
                         // (only the first run of the handler has the failing command, so that a handler that
@@ -243,6 +250,7 @@ impl Renderer {
                 Cause::ErrexitAndOrLast(s) => format!("set -e\ntrue && simexit {s}"),
                 Cause::BangExit(n) => format!("! exit {n}"),
                 Cause::Exec(n) => format!("exec xexit {n}"),
+                Cause::DebugExit(n) => format!("trap \"exit {n}\" DEBUG\n:"),
             },
         }
     }
@@ -487,14 +495,14 @@ impl Model {
                     st.err_exit = if let ErrHandler::Exits(m) = h { Some(*m) } else { None };
                     st.err_failing = match h {
                         ErrHandler::Failing => Some(4),
-                        ErrHandler::SourcesFailing => Some(3),
+                        ErrHandler::SourcesFailing | ErrHandler::SubstFailingE => Some(3),
                         _ => None,
                     };
                 }
                 Flow::Continue
             }
             Node::Term(c) => match c {
-                Cause::Exit(Some(n)) | Cause::BangExit(n) => Flow::Terminated(Known::Exactly(*n)),
+                Cause::Exit(Some(n)) | Cause::BangExit(n) | Cause::DebugExit(n) => Flow::Terminated(Known::Exactly(*n)),
                 Cause::Exec(n) => {
                     self.execd = true;
                     Flow::Terminated(Known::Exactly(*n))
@@ -617,8 +625,9 @@ fn gen_block2(rng: &mut Rng, depth: u32, main_ctx: bool, in_eval: bool, in_func:
                 if rng.below(3) == 0 {
                     if rng.below(3) == 0 { Node::TrapExitIgnore } else { Node::TrapExitRemove }
                 } else {
-                    Node::TrapErr(match rng.below(6) {
+                    Node::TrapErr(match rng.below(7) {
                         5 => ErrHandler::SourcesFailing,
+                        6 => ErrHandler::SubstFailingE,
                         0..=1 => ErrHandler::Clobbers,
                         2..=3 => ErrHandler::Failing,
                         _ => ErrHandler::Exits(*rng.pick(&[0u8, 8, 9])),
@@ -627,8 +636,9 @@ fn gen_block2(rng: &mut Rng, depth: u32, main_ctx: bool, in_eval: bool, in_func:
             }
             7 if main_ctx && !*term && rng.below(3) == 0 => {
                 *term = true;
-                Node::Term(match rng.below(14) {
+                Node::Term(match rng.below(15) {
                     12 => Cause::Exec(*rng.pick(&[0u8, 3, 7])),
+                    13 if !in_func => Cause::DebugExit(*rng.pick(&[0u8, 5, 15])),
                     8 => Cause::ErrexitAssign(*rng.pick(&[1u8, 3])),
                     9 => match rng.below(2) { 0 => Cause::ErrexitArith, _ => Cause::ErrexitCond },
                     10 => Cause::ErrexitAndOrLast(*rng.pick(&[1u8, 3])),
@@ -728,7 +738,7 @@ impl C16 {
         // `exit` inside the EXIT handler) and from handlers that fail on purpose
         fn has_err_failing(ns: &[Node]) -> bool {
             ns.iter().any(|n| match n {
-                Node::TrapErr(ErrHandler::Exits(_) | ErrHandler::Failing | ErrHandler::SourcesFailing) => true,
+                Node::TrapErr(ErrHandler::Exits(_) | ErrHandler::Failing | ErrHandler::SourcesFailing | ErrHandler::SubstFailingE) => true,
                 Node::If(b) | Node::Eval(b) | Node::Brace(b) | Node::CaseArm(b) | Node::WhileRead(b) | Node::Func(b) | Node::Source(b) | Node::For(_, b) | Node::Subshell(b) | Node::CmdSubst(b) | Node::Bg(b) => has_err_failing(b),
                 _ => false,
             })
@@ -748,6 +758,33 @@ impl C16 {
         if has_err_failing(&program) {
             tame_in_funcs(&mut program, false);
         }
+        // `set -E` makes functions, subshells and substitutions inherit the ERR trap, which the
+        // reference interpreter does not model: programs that turn it on are kept flat
+        fn has_errtrace(ns: &[Node]) -> bool {
+            ns.iter().any(|n| match n {
+                Node::TrapErr(ErrHandler::SubstFailingE) => true,
+                Node::If(b) | Node::Eval(b) | Node::Brace(b) | Node::CaseArm(b) | Node::WhileRead(b) | Node::Func(b) | Node::Source(b) | Node::For(_, b) | Node::Subshell(b) | Node::CmdSubst(b) | Node::Bg(b) => has_errtrace(b),
+                _ => false,
+            })
+        }
+        fn flatten(ns: &mut Vec<Node>) {
+            for n in ns.iter_mut() {
+                match n {
+                    Node::Func(b) => {
+                        flatten(b);
+                        *n = Node::Brace(std::mem::take(b));
+                    }
+                    Node::Subshell(_) | Node::CmdSubst(_) | Node::Bg(_) => *n = Node::Probe,
+                    Node::StatusVia(Via::Assign(_) | Via::BgJobError) => *n = Node::Probe,
+                    Node::Term(Cause::ErrexitAssign(_)) => *n = Node::Term(Cause::Errexit(3)),
+                    Node::If(b) | Node::Eval(b) | Node::Brace(b) | Node::CaseArm(b) | Node::WhileRead(b) | Node::Source(b) | Node::For(_, b) => flatten(b),
+                    _ => {}
+                }
+            }
+        }
+        if has_errtrace(&program) {
+            flatten(&mut program);
+        }
         fn has_err_exit(ns: &[Node]) -> bool {
             ns.iter().any(|n| match n {
                 Node::TrapErr(ErrHandler::Exits(_)) => true,
@@ -760,6 +797,7 @@ impl C16 {
                 match n {
                     Node::Term(Cause::Exit(_)) => *n = Node::Term(Cause::Exit(Some(0))),
                     Node::Term(Cause::BangExit(_)) => *n = Node::Term(Cause::BangExit(0)),
+                    Node::Term(Cause::DebugExit(_)) => *n = Node::Term(Cause::DebugExit(0)),
                     Node::TrapExit(Handler::Exits(_) | Handler::Failing) => *n = Node::TrapExit(Handler::ProbeOnly),
                     Node::If(b) | Node::Eval(b) | Node::Brace(b) | Node::CaseArm(b) | Node::WhileRead(b) | Node::Func(b) | Node::Source(b) | Node::For(_, b) | Node::Subshell(b) | Node::CmdSubst(b) | Node::Bg(b) => tame(b),
                     _ => {}
@@ -839,16 +877,13 @@ fn observational(case: &Case, r: &RunResult, script: &str, what: &str) -> Option
     // a handler never re-enters itself: while the ERR handler that sources a file with a failing
     // command runs, that failure must not start the ERR handler again (which would show as a
     // second ERR handler frame on the call stack). An EXIT handler frame may be underneath.
-    let mut in_exit = 0usize;
     let mut bi = 0usize;
     for (tag, _, _) in &o.main {
-        if tag == "exit_h" {
-            in_exit = 1;
-        } else if tag == "errs_b" {
+        if tag == "errs_b" {
             let n = o.errs_b_frames.get(bi).copied().unwrap_or(0);
             bi += 1;
-            if n > 1 + in_exit {
-                return Some(viol("C16/handler/re-entered", format!("{what}: the ERR handler was entered again while it was running ({n} trap-handler frames on the stack); main probes {:?}; script={script:?}", o.main.iter().map(|x| x.0.as_str()).collect::<Vec<_>>()), None));
+            if n > 1 {
+                return Some(viol("C16/handler/re-entered", format!("{what}: the ERR handler was entered again while it was running ({n} ERR-handler frames on the stack); main probes {:?}; script={script:?}", o.main.iter().map(|x| x.0.as_str()).collect::<Vec<_>>()), None));
             }
         }
     }
